@@ -195,7 +195,7 @@ NumberVocab == {"0", "1", "2", "3", "4", "5", "6", "7", "8", "9", "10", "12", "4
 WideNumberVocab == {"2147483647", "2147483648", "99999999999", "0.5"}
 (* the last four carry inside the quotes what is white space or a comment OUTSIDE them: two blanks, the line-comment and *)
 (* block-comment markers, a blank before the closing quote - a string token is opaque to the gap rules                  *)
-StringVocab == {"'a'", "'b'", "'c'", "'ab'", "'male'", "'a  b'", "'x // y'", "'/* z */'", "' b '"}
+StringVocab == {"'a'", "'b'", "'c'", "'ab'", "'male'", "'a  b'", "'x // y'", "'/* z */'", "' b '", "'a b'"}
 Dollars    == {"$this", "$index", "$total"}
 Puncts     == {"(", ")", "[", "]", "{", "}", ".", ",", "%", "+", "-", "*", "/", "&", "|",
                "<", "<=", ">", ">=", "=", "!=", "~", "!~"}
